@@ -12,6 +12,8 @@ still compiles and its existing unit tests still pass, plus a demonstration that
 
 Work ONLY inside your own scratch git worktree: /tmp/wt/{wid}  (a checkout of the repository at its current HEAD).
 Do NOT read or write /verif, /repo, /root/.vp or any other directory under /tmp/wt — your change must be independent of anything there.
+Never use `git stash` (the stash is shared between all worktrees of this repository and other people use them): to set your
+change aside use `git diff > /tmp/wt/{wid}/my.diff; git checkout -- .` and later `git apply /tmp/wt/{wid}/my.diff`.
 The sandbox is offline. For every go command: export GOFLAGS=-mod=mod GOPROXY=off   (the default `go` toolchain works in the worktree).
 
 ## The property ({prop}: {p['title']})
